@@ -86,6 +86,16 @@ DDrawIter(d, px) ==
      ELSE FoldLeft(LAMBDA acc, p : One(acc, DSetPixels(d, AsU16(p[1]), AsU16(p[2]), AsU16(p[1]), AsU16(p[2]), <<p[3]>>)),
                    Res(d, <<>>), vis)
 
+\* draw_iter of the pinned tree before the repair (defect 2): nothing but the negative-coordinate test inside the
+\* row iterator (and not even that without the batch feature); kept as the negative control of MC_Placement
+DDrawIterPrefix(d, px) ==
+  LET One(acc, piece) == IF acc.panic THEN acc ELSE [d |-> d, ops |-> acc.ops \o piece.ops, panic |-> piece.panic]
+  IN IF d.cfg.batch
+     THEN IF BlocksPanic(px) THEN Panicked(d, <<>>)
+          ELSE FoldLeft(LAMBDA acc, b : One(acc, DSetPixels(d, b.xl, b.yt, b.xr, b.yb, b.cols)), Res(d, <<>>), Blocks(px))
+     ELSE FoldLeft(LAMBDA acc, p : One(acc, DSetPixels(d, AsU16(p[1]), AsU16(p[2]), AsU16(p[1]), AsU16(p[2]), <<p[3]>>)),
+                   Res(d, <<>>), px)
+
 DClear(d, col) == LET s == LSize(d) IN DFillSolid(d, <<0, 0, s[1], s[2]>>, col)
 
 \* set_orientation: the cached address mode is updated first, the options after the command succeeded
